@@ -10,7 +10,7 @@ import (
 
 func init() {
 	register("C02", runC02,
-		"Decides structural necessary conditions of 'shared GPU devices are never oversubscribed': per-group memory counters move as inverses per status arm and the whole-GPU side effects are inverse multisets with their vector twins; a group becomes a candidate only behind the fit predicate, whose formula reads the right counters with the right signs; an immediate bind needs idle room on the device; the selected groups reach the pod unchanged and are cleared on failure; a shared allocation contributes no whole GPU.",
+		"Decides structural necessary conditions of 'shared GPU devices are never oversubscribed': per-group memory counters move as inverses per status arm and the whole-GPU side effects are inverse multisets with their vector twins; a group becomes a candidate only behind the fit predicate, whose formula reads the right counters with the right signs; an immediate bind needs idle room on the device; the selected groups reach the pod unchanged and are cleared on failure; a shared allocation contributes no whole GPU. Also: whole-GPU candidates are bounded by the node's idle and releasing GPUs; GetGpuGroups reads both label forms (shared with C17).",
 		"that counters never go negative or exceed the device for all reachable states (a state-machine question), distinctness of the chosen device ids beyond one append per distinct map key")
 }
 
